@@ -339,7 +339,46 @@ def rule5_ilock(ctx, fl):
             ok = bool(keys) and la.held_must(a, keys[0])
             ctx.ob('C04.5', '%s: %s of %s under ilock' % (name, a.op, f.field(a).split('.')[-1]), ok,
                    'queue head/tail are accessed only under q->ilock', loc=a.loc)
-    ctx.floor('C04.5', 10)
+    # FIFO linkage: "no lost wake-up" needs every enqueued waiter to stay reachable from head until it is dequeued
+    HEAD, TAIL, NEXT = 'myth_sleep_queue_t.head', 'myth_sleep_queue_t.tail', 'myth_sleep_queue_item.next'
+    e = ctx.need_fn(v, 'myth_sleep_queue_enq')
+    q, t = e.params[0]['id'], e.params[1]['id']
+    tl = [l for l in e.loads_of(TAIL)]
+    ctx.ob('C04.5', 'enq: reads the tail once', len(tl) == 1, 'tail = q->tail', loc=e.loc)
+    if len(tl) == 1:
+        nts = null_tests(e, tl[0].id)
+        term = [st for st in e.stores_to(NEXT) if same_value(e, e.ap(st.ops[1]).root, t) and isinstance(st.ops[0], dict) and st.ops[0].get('null')]
+        link = [st for st in e.stores_to(NEXT) if same_value(e, e.ap(st.ops[1]).root, tl[0].id) and same_value(e, st.ops[0], t)]
+        hd = [st for st in e.stores_to(HEAD) if same_value(e, st.ops[0], t)]
+        newt = [st for st in e.stores_to(TAIL) if same_value(e, st.ops[0], t)]
+        ctx.ob('C04.5', 'enq: the new element ends the list', len(term) == 1 and all(e.dominates_f(term[0], x) for x in link + hd + newt),
+               't->next = 0 before t becomes reachable', loc=e.loc)
+        ctx.ob('C04.5', 'enq: linked behind the old tail of a non-empty queue', len(link) == 1 and
+               any(e.edge_dominates(br.block.id, nn, link[0]) for br, nn, nl in nts), 'if (tail) tail->next = t', loc=(link[0].loc if link else e.loc))
+        ctx.ob('C04.5', 'enq: becomes the head of an empty queue', len(hd) == 1 and
+               any(e.edge_dominates(br.block.id, nl, hd[0]) for br, nn, nl in nts), 'else q->head = t', loc=(hd[0].loc if hd else e.loc))
+        ctx.ob('C04.5', 'enq: becomes the tail on every path', len(newt) == 1 and e.always_passes(e.entry_inst(), newt),
+               'q->tail = t unconditionally (a stale tail makes the next enqueue overwrite the link to this waiter)', loc=(newt[0].loc if newt else e.loc))
+    d = ctx.need_fn(v, 'myth_sleep_queue_deq')
+    hl = [l for l in d.loads_of(HEAD)]
+    ctx.ob('C04.5', 'deq: reads the head once', len(hl) == 1, 'head = q->head', loc=d.loc)
+    if len(hl) == 1:
+        nts = null_tests(d, hl[0].id)
+        nxl = [l for l in d.loads_of(NEXT) if same_value(d, d.ap(l.ops[0]).root, hl[0].id)]
+        adv = [st for st in d.stores_to(HEAD) if nxl and same_value(d, st.ops[0], nxl[0].id)]
+        ctx.ob('C04.5', 'deq: head advances to the successor of the element taken', len(nxl) == 1 and len(adv) == 1 and
+               any(d.edge_dominates(br.block.id, nn, adv[0]) for br, nn, nl in nts) and
+               all(not [r for r in d.reachable_from(lib.first_inst(d, nn), blocked=adv, include_start=True) if r.op == 'ret'] for br, nn, nl in nts),
+               'if (head) q->head = head->next, on every path that takes an element', loc=(adv[0].loc if adv else d.loc))
+        clr = [st for st in d.stores_to(TAIL) if isinstance(st.ops[0], dict) and st.ops[0].get('null')]
+        nnt = null_tests(d, nxl[0].id) if nxl else []
+        ctx.ob('C04.5', 'deq: tail cleared exactly when the last element is taken', len(clr) == 1 and
+               any(d.edge_dominates(br.block.id, nl, clr[0]) for br, nn, nl in nnt) and
+               all(not [r for r in d.reachable_from(lib.first_inst(d, nl), blocked=clr, include_start=True) if r.op == 'ret'] for br, nn, nl in nnt),
+               'if (!next) q->tail = 0: a dangling tail links the next waiter behind a thread that has already left', loc=(clr[0].loc if clr else d.loc))
+        rets = [r for r in d.exits() if r.ops]
+        ctx.ob('C04.5', 'deq: returns the old head', bool(rets) and all(same_value(d, r.ops[0], hl[0].id) for r in rets), 'the element taken', loc=d.loc)
+    ctx.floor('C04.5', 19)
 
 
 def rule_init_complete(ctx, fl):
@@ -368,6 +407,14 @@ def run(ctx):
 
 SYNC = 'src/myth_sync_func.h'
 MUTANTS = [
+    {'name': 'sleep queue enq keeps the old tail (sweep M0499)', 'expect': 'C04.5',
+     'edits': [('src/myth_sleep_queue_func.h', "    q->head = t;\n  }\n  q->tail = t;\n  myth_spin_unlock_body(q->ilock);", "    q->head = t;\n  }\n  myth_spin_unlock_body(q->ilock);")]},
+    {'name': 'sleep queue enq links on the wrong branch (sweep M0500)', 'expect': 'C04.5',
+     'edits': [('src/myth_sleep_queue_func.h', "  myth_sleep_queue_item_t tail = q->tail;\n  if (tail) {\n    tail->next = t;", "  myth_sleep_queue_item_t tail = q->tail;\n  if (!(tail)) {\n    tail->next = t;")]},
+    {'name': 'sleep queue deq leaves a dangling tail (sweep M0496)', 'expect': 'C04.5',
+     'edits': [('src/myth_sleep_queue_func.h', "    if (!next) {\n      q->tail = 0;\n    }\n  }\n  myth_spin_unlock_body(q->ilock);\n  return head;", "  }\n  myth_spin_unlock_body(q->ilock);\n  return head;")]},
+    {'name': 'sleep queue deq does not advance the head (sweep M0495)', 'expect': 'C04.5',
+     'edits': [('src/myth_sleep_queue_func.h', "    myth_sleep_queue_item_t next = head->next;\n    q->head = next;\n    if (!next) {\n      q->tail = 0;", "    myth_sleep_queue_item_t next = head->next;\n    if (!next) {\n      q->tail = 0;")]},
     {'name': 'mutex_init forgets the state word', 'expect': 'C04.6',
      'edits': [(SYNC, '  myth_sleep_queue_init(mutex->sleep_q);\n  mutex->state = 0;\n  if (attr) {', '  myth_sleep_queue_init(mutex->sleep_q);\n  if (attr) {')]},
     {'name': 'lock polls a held mutex with a bound that is never reached (seed2 C04/m1)', 'expect': 'C04.2',
